@@ -21,8 +21,25 @@ mod driver;
 use std::collections::BTreeSet;
 use std::path::PathBuf;
 
+struct StderrLog;
+
+impl log::Log for StderrLog {
+    fn enabled(&self, _: &log::Metadata) -> bool { true }
+    fn log(&self, record: &log::Record) {
+        eprintln!("[{}] {}", record.level(), record.args());
+    }
+    fn flush(&self) { }
+}
+
 fn main() {
     let args: Vec<String> = std::env::args().collect();
+    // Debugging aid only: the routinator log on stderr.
+    if std::env::var_os("VERIF_LOG").is_some()
+        && !servers::is_fake_rsync_invocation(&args)
+    {
+        let _ = log::set_logger(&StderrLog);
+        log::set_max_level(log::LevelFilter::Info);
+    }
     if servers::is_fake_rsync_invocation(&args) {
         std::process::exit(servers::fake_rsync_main(&args));
     }
